@@ -44,7 +44,10 @@ ALPHABET = ["(", ")", "{", "}", "[", "]", ";", ",", ":", "=", "=>", "\"x\"", "\"
             # strengthening round 1: operand / operator / statement-head tokens the positional parsers look for
             "..", "matches", ":=", "+=", "!", "&&", "$", "-1", "1.5", "return", "while", "for", "switch", "new", "class", "$(",
             # triage round 5: operator characters that were missing (`/` of paths and Hardcode.calc, `%`, a bare `@`)
-            "/", "%", "@"]
+            "/", "%", "@",
+            # strengthening round 4: whole vanilla macro operands (bare, connected suffix, connected prefix, two in a row): what
+            # Tokenizer.merge_vanilla_macro folds into one token while condition_to_ast / FuncContent iterate over the list
+            "$(x)", "$(p)_x", "a$(p)", "$(a)$(b)"]
 STRING_ALPHABET = ['""', '"&<"', '"&<red"', '"&<$x,>"', '"$("', '"Hardcode.calc("']
 GROUP_ALPHABET = [";", "()", "{}", "[]", "x", "\"x\"", "1", "( )", "{ }"]
 BRACKETS = "()[]{}"
